@@ -493,6 +493,8 @@ def run(ctx):
     # queue would make the next would-block SSL call of an ESTABLISHED connection look like a protocol error
     from . import C02 as c02
     from . import C07 as c07
+    r13 = ctx.rule("C18.R13", "a PEM bundle ends only where the reader reports 'no further block': any other reason fails the load")
+    check_bundle_end(P, r13)
     r12 = ctx.rule("C18.R12", "credential files are read to end-of-file: a short read(2) does not end the load")
     check_loader_reads_to_eof(P, r12)
     r11 = ctx.rule("C18.R11", "a failed credential load or handshake leaves the thread's OpenSSL error queue empty: established connections are not affected")
@@ -616,3 +618,72 @@ def check_loader_reads_to_eof(P, rule):
             rule.ok("%s reads until end-of-file" % f.qname, "fread short count / read(2) result 0 only")
     if n < 1:
         raise Broken("loader-eof: no file loader found in util.c")
+
+
+def check_bundle_end(P, rule):
+    """a PEM bundle (trust anchors, revocation lists, the certificate chain) is read block by block until the reader
+    answers NULL.  NULL means 'no further block' only when the reason on OpenSSL's error queue is PEM_R_NO_START_LINE;
+    any other reason is a damaged block, and what follows it (further trust anchors, the current CRL) is lost.  A loader
+    that succeeds after the reader's NULL without having looked at the reason builds - and caches - a context from a
+    silently truncated bundle instead of failing with EPROTO."""
+    READERS = ("PEM_read_bio_X509_AUX", "PEM_read_bio_X509", "PEM_read_bio_X509_CRL")
+    NO_START_LINE, ERR_LIB_PEM = 108, 9
+    n = 0
+    for f in P.functions:
+        if not f.file.endswith("tls/ctx_store.c"):
+            continue
+        rd = [c for c in f.calls() if (f.nodes[c].get("callee") or "") in READERS]
+        # bundle readers: a reader call inside a loop
+        cyc = set()
+        for comp in C.sccs(f):
+            if len(comp) > 1 or any(b in f.blocks[b].succs for b in comp):
+                cyc |= set(comp)
+        looped = [c for c in rd if f.where()[c][0] in cyc]
+        if not looped:
+            continue
+        n += 1
+        rule.instance("%s: %s in a loop" % (f.qname, ", ".join(sorted({f.nodes[c]["callee"] for c in looped}))))
+        bad = []
+        nok = [0]
+
+        class End(S.SeqRule):
+            max_depth = 0
+
+            def user0(s2, fn):
+                return (False, False)        # (a looped reader answered NULL, the reason was examined since)
+
+            def on_branch(s2, fn, st, blk, cond, label):
+                if label not in ("T", "F"):
+                    return None
+                l, op, r = C.cond_atom(fn, cond, label == "T")
+                if isinstance(l, tuple):
+                    return None
+                ln = fn.nodes[fn.origin(l)]
+                if ln["k"] == "bin" and ln["op"] == "=":          # while ((cert = PEM_read_bio_X509(..)) != NULL)
+                    ln = fn.nodes[fn.origin(ln["r"])]
+                if ln["k"] == "call" and ln["id"] in looped and C.const_of(fn, r) == 0 and op == "==":
+                    return (True, False)
+                ln2 = fn.sn(l)
+                if ln2["k"] == "call" and ((ln2.get("callee") or "") == "ERR_GET_REASON" and C.const_of(fn, r) == NO_START_LINE or
+                                           (ln2.get("callee") or "") == "ERR_GET_LIB" and C.const_of(fn, r) == ERR_LIB_PEM):
+                    # (the PEM readers leave a PEM-library error behind every NULL: a test of the library that comes out
+                    # 'not PEM' cannot happen after one, and is counted as an examination like the test of the reason)
+                    return (st.user[0], True)
+                return None
+
+            def on_exit(s2, fn, st, ret_nid, ret_cls, top):
+                if top and ret_cls == S.ZERO:
+                    nok[0] += 1
+                    if st.user[0] and not st.user[1] and not bad:
+                        bad.append(ret_nid)
+        S.run(End(P), f)
+        if nok[0] < 1:
+            raise Broken("bundle-end: no successful exit of %s explored" % f.name)
+        if bad:
+            rule.violation("%s:end-of-bundle-not-examined" % f.name, "%s can succeed after the PEM reader answered NULL without having compared the reason with "
+                           "PEM_R_NO_START_LINE: a damaged block in the middle of the bundle ends the load silently and the context is built from what came before it"
+                           % f.name, loc=f.loc(bad[0]) if bad[0] is not None else f.file)
+        else:
+            rule.ok("%s: success after the reader's NULL only with the reason examined" % f.qname, "path exploration")
+    if n < 3:
+        raise Broken("bundle-end: only %d bundle loaders found in ctx_store.c" % n)
